@@ -1227,7 +1227,7 @@ func (g *gen) fullExtra(t Typ, d int, dot Typ) E {
 		return E{"label $out | " + x.S + " | ., break $out", PPipe}
 	case 17:
 		x, y := sub(), sub()
-		return E{g.wrap(x, PTerm) + " as " + g.of("[$a]", "{a: $a}", "$a", "[$a, [$b]]", "{\"k\": $a}", "{(\"a\"): $a}", "{$a: [$b]}") + " ?// " + g.of("$a", "[$a]", "{$a}") + " | " + y.S, PPipe}
+		return E{g.wrap(x, PTerm) + " as " + g.of("[$a]", "{a: $a}", "$a", "[[$a]]", "{\"k\": $a}", "{(\"a\"): $a}", "{$a: [$a]}") + " ?// " + g.of("$a", "[$a]", "{$a}") + " | " + y.S, PPipe}
 	case 18:
 		// every binary operator once, left to right: associativity and precedence must survive
 		ops := []string{"|", ",", "//", "or", "and", "or", "and", "==", "!=", "<", "<=", ">", ">=", "+", "-", "*", "/", "%"}
@@ -1536,12 +1536,23 @@ func (g *gen) pattern(d int, bound *[]string) string {
 func (g *gen) destructure(t Typ, d int, dot Typ, alt bool) E {
 	x := g.expr(TAny, d-1, dot)
 	var bound []string
-	pat := g.pattern(1+g.n(2), &bound)
+	var pat string
 	if alt {
-		n := 1 + g.n(2)
-		for i := 0; i < n; i++ {
-			pat += " ?// " + g.pattern(g.n(2), &bound)
+		// every alternative binds the same variables: the embedded engine leaves the
+		// variables of alternatives that did not match uninitialised (they read dead
+		// call frames), so a program that uses one has no defined reference result
+		bound = []string{g.of("$a", "$x")}
+		if g.chance(500) {
+			bound = append(bound, g.of("$b", "$y"))
 		}
+		n := 2 + g.n(2)
+		var alts []string
+		for i := 0; i < n; i++ {
+			alts = append(alts, g.sameVarsPattern(bound))
+		}
+		pat = strings.Join(alts, " ?// ")
+	} else {
+		pat = g.pattern(1+g.n(2), &bound)
 	}
 	mark := len(g.vars)
 	for _, b := range bound {
@@ -1550,6 +1561,16 @@ func (g *gen) destructure(t Typ, d int, dot Typ, alt bool) E {
 	body := g.expr(t, d-1, dot)
 	g.vars = g.vars[:mark]
 	return E{g.wrap(x, PTerm) + " as " + pat + g.sp() + "|" + g.sp() + body.S, PPipe}
+}
+
+// sameVarsPattern renders a destructuring pattern that binds exactly vars.
+func (g *gen) sameVarsPattern(vars []string) string {
+	a := vars[0]
+	if len(vars) == 1 {
+		return g.of(a, "["+a+"]", "{a: "+a+"}", "{"+a+"}", "[["+a+"]]", "{\"k\": "+a+"}", "{(\"a\", \"b\"): "+a+"}")
+	}
+	b := vars[1]
+	return g.of("["+a+", "+b+"]", "{a: "+a+", b: "+b+"}", "{"+a+", "+b+"}", "["+a+", ["+b+"]]", "{a: ["+a+", "+b+"]}", "{"+a+", \"k\": {"+b+"}}", "["+b+", "+a+"]")
 }
 
 func (g *gen) def(t Typ, d int, dot Typ) E {
